@@ -137,7 +137,7 @@ prop('C03',
                  'sensitivities is that score.')
 
 prop('C05',
-     [ndim.r05_1, popmodels.r05_2, popmodels.r05_5, cursors.r05_4, layout.r05_3, layout.r05_6, contracts.r05_7,
+     [ndim.r05_1, popmodels.r05_2, popmodels.r05_5, popmodels.r17_4, cursors.r05_4, layout.r05_3, layout.r05_6, contracts.r05_7,
       reduced.r08_2],
      undecided=['numerical values at boundary points', '-inf vs nan'],
      assumptions=TERM_ASSUME,
@@ -311,7 +311,7 @@ prop('C13',
 
 prop('C17',
      [layout.r05_3, layout.r02_4, layout.r13_1, layout.r07_1,
-      wrappers.r02_2, forward.r02_8, reduced.r08_4, reduced.r08_6, caches.r08_5, layout.r07_3, switch.r08_7, CUR_HIER,
+      wrappers.r02_2, forward.r02_8, reduced.r08_4, reduced.r08_6, caches.r08_5, layout.r07_3, popmodels.r17_4, switch.r08_7, CUR_HIER,
       CUR_LL],
      undecided=['uniqueness of run-time names (string contents)',
                 'bounded enumeration of deeper compositions'],
